@@ -5,3 +5,4 @@ pub mod s4_hash_stream;
 pub mod s3_hosts;
 pub mod arena;
 pub mod s5_mem;
+pub mod s6_counters;
